@@ -202,8 +202,11 @@ fn check_write_here(addr: u16, typ: u8, data: &[u8], wscript: &[WAns]) -> (&'sta
     let res = catch(|| frame.write(&mut io));
     let desc = format!("write of ({:04X},{:02X},{} data bytes) with answers [{}]", addr, typ, data.len(), wscript.iter().take(24).map(wans_str).collect::<Vec<_>>().join(","));
     let mut out: Vec<V> = vec![];
-    // first fatal answer actually reached
+    // first fatal answer actually reached. A hard error is fatal; an accept of zero bytes is not an I/O failure in
+    // itself (write_all turns it into WriteZero, a sink may also be asked again): after one, either an I/O error or
+    // the complete frame is acceptable
     let mut fatal: Option<usize> = None;
+    let mut zero_accept = false;
     {
         let evs = log.borrow();
         let mut idx = 0;
@@ -212,7 +215,10 @@ fn check_write_here(addr: u16, typ: u8, data: &[u8], wscript: &[WAns]) -> (&'sta
                 let is_fatal = match got {
                     Err(io::ErrorKind::Interrupted) => false,
                     Err(_) => true,
-                    Ok(0) => *offered > 0,
+                    Ok(0) => {
+                        zero_accept |= *offered > 0;
+                        false
+                    }
                     Ok(_) => false,
                 };
                 if is_fatal && fatal.is_none() {
@@ -234,6 +240,12 @@ fn check_write_here(addr: u16, typ: u8, data: &[u8], wscript: &[WAns]) -> (&'sta
                 if io.written != want {
                     let cls = if io.written.len() < want.len() { "truncated" } else if io.written.len() > want.len() { "extra-bytes" } else { "different-bytes" };
                     out.push(("write-delivers-whole-frame", cls.into(), format!("{}: sink received {} but the encoding is {}", desc, show_bytes(&io.written[..io.written.len().min(40)]), show_bytes(&want[..want.len().min(40)]))));
+                }
+            }
+            (None, Err(FrameError::Io { .. })) if zero_accept => {
+                outcome = "io-error-after-zero-accept";
+                if !want.starts_with(&io.written) {
+                    out.push(("write-delivers-whole-frame", "not-a-prefix".into(), format!("{}: bytes delivered before giving up are not a prefix of the encoding", desc)));
                 }
             }
             (None, Err(e)) => {
@@ -304,6 +316,10 @@ fn streams(seed: u64) -> Vec<(String, Vec<u8>, usize)> {
     ];
     let long = ref_encode(0x1234, 0, &fill(255, 4, seed), true);
     v.push(("255-data-byte frame + frame".to_string(), cat(&[&long, &f1]), 2));
+    // bytes that are not valid UTF-8 inside a line, and a lone lead byte at its end (a reader that goes through a
+    // String would turn these lines into an I/O error instead of the decoder's verdict)
+    v.push(("non-UTF-8 line then frame".to_string(), cat(&[b":01\xFF\xFE02FF\r\n", &f1]), 2));
+    v.push(("lone UTF-8 lead byte before LF then frame".to_string(), cat(&[b":0100030200FA\xC3\n", &f0]), 2));
     let l16 = ref_encode(0x0020, 0, &fill(16, 5, seed), true);
     v.push(("16-data-byte frame x2 + X".to_string(), cat(&[&l16, &l16, b"X"]), 3));
     v
